@@ -317,12 +317,64 @@ func runFuzz(o *Options, res *Result, rng *RNG, n int, prop string) {
 	}
 }
 
+// runBracketPaths: index syntax is rewritten inside counter loops (a[i] -> a.<i>); every way of
+// writing brackets in a path, well formed or not, in and out of loops, must render without a crash.
+func runBracketPaths(res *Result) {
+	paths := []string{"v]x[", "v][", "v]i[i]", "v[", "v]", "v[[i]]", "v[i", "v[i]]", "[i]", "[]", "a[]b", "v[i][i]", "][", "]", "[", "v[]", "v.[i]", "v[i].", "v[i]x",
+		"user.Finance.History[i].Cost", "user.Finance.History[9].Cost", "user.Finance.History[i", "user.Finance.History]i[.Cost", "user.Finance.History[i][i].Cost", "user.Finance.History[j].Cost", "user.Flags[i]", "user.Name[i]"}
+	shapes := []string{
+		"{% for i := 0; i < 2; i++ %}<{%= PATH %}>{% endfor %}",
+		"{% for i := 0; i < 2; i++ %}{% if PATH == 1 %}a{% else %}b{% endif %}{% endfor %}",
+		"{% for i := 0; i < 2; i++ %}{% ctx c = PATH %}{%= c %}{% endfor %}",
+		"{% for i := 0; i < 2; i++ %}{% for j := 0; j < 2; j++ %}{%= PATH %}{% endfor %}{% endfor %}",
+		"{% for i := 0; i < 2; i++ %}{% if len(PATH) > 0 %}a{% endif %}{%= x|default(PATH) %}{% endfor %}",
+		"{% for i := 0; i < 2; i++ %}{% for _, h := range PATH %}x{% endfor %}{% endfor %}",
+		"{% for i := 0; i < 2; i++ %}{% switch PATH %}{% case 1 %}a{% default %}b{% endswitch %}{% endfor %}",
+		"<{%= PATH %}>{% if PATH == 1 %}a{% endif %}",
+		"{% for _, h := range user.Finance.History %}{%= PATH %}{% endfor %}",
+	}
+	g := &Gen{r: NewRNG(7), p: profiles["ALL"], flits: map[string]float64{}, tags: map[string]bool{}}
+	g.genData()
+	g.data.User.Present, g.data.User.HasFinance = true, true
+	v := "abc"
+	for _, p := range paths {
+		for _, sh := range shapes {
+			src := strings.ReplaceAll(sh, "PATH", p)
+			res.Evaluations++
+			key, _, po := parseDump([]byte(src), false)
+			res.Hist("brackets:parse-" + po.ErrClass())
+			if po.ErrClass() == "PANIC" || po.ErrClass() == "HANG" {
+				res.OracleFails++
+				res.AddViolation(&Violation{Kind: "failing-input", Class: "parse:" + po.ErrClass(), What: fmt.Sprintf("Parse of %q: %s %s", src, po.ErrClass(), po.Panic), Replay: map[string]any{"template": src}})
+				continue
+			}
+			if po.ErrClass() != "OK" {
+				continue
+			}
+			obs := guarded(3*time.Second, func() ([]byte, error) {
+				ctx := dyntpl.NewCtx()
+				g.data.Apply(ctx)
+				ctx.SetStatic("v", &v)
+				return dyntpl.Render(key, ctx)
+			})
+			res.Hist("brackets:render-" + obs.ErrClass())
+			res.Distinct("br:" + src)
+			if (obs.Panic != "" && obs.InRepo()) || obs.Hang {
+				res.OracleFails++
+				res.AddViolation(&Violation{Kind: "failing-input", Class: "render:" + obs.ErrClass(), What: fmt.Sprintf("rendering %q: %s %s", src, obs.ErrClass(), obs.Panic),
+					Replay: map[string]any{"template": src, "data_slots": g.data.Slots(), "panic": obs.Panic}})
+			}
+		}
+	}
+}
+
 func runC13(o *Options) *Result {
 	res := runInterp(o, "C13", profiles["ALL"], 120, 3000, corrInterp)
 	if res.InfraError != "" {
 		return res
 	}
 	runSweep(res, "C13", o.Tier == "thorough")
+	runBracketPaths(res)
 	n := 1500
 	if o.Tier == "thorough" {
 		n = 60000
